@@ -11,6 +11,10 @@ for s in $LIST; do
   [ "$s" = "C08-F" ] && checks="C08 C09"   # duplicate filter vs allow callback: C09's statement
   [ "$s" = "C15-E" ] && checks="C15 C16"   # changes announce/receiver.go Close: needs a pubsub message in flight
   [ "$s" = "C14-F" ] && checks="C14 C01"
+  [ "$s" = "C01-H" ] && checks="C01 C04"   # success with part of the segment reported: C04's completeness oracle
+  [ "$s" = "C08-H" ] && checks="C08 C04"   # "its CID may be announced again" is C04's clause
+  [ "$s" = "C07-H" ] && checks="C07 C06"   # the HTTP source adapter: C06's HTTP-source unit
+  [ "$s" = "C17-G" ] && checks="C17 C06"
   cd /repo; if [ -n "$(git status --porcelain)" ]; then echo "/repo dirty"; exit 2; fi
   if ! git apply /verif/seeded/$s/patch.diff 2>/dev/null; then
     if ! patch -p1 --no-backup-if-mismatch -s < /verif/seeded/$s/patch.diff >/dev/null 2>&1; then git checkout -- .; git clean -fdq; echo "$s: patch does not apply to the current tree"; echo "{\"applies\": false}" > /verif/seeded/$s/detection.json; continue; fi
